@@ -19,6 +19,7 @@ From SC Require Import Base.Prelude Gen.Units Traits.Str Traits.StrProofs
   Traits.ModeTrait Traits.ModeTraitProofs Traits.EnterLeave Traits.EnterLeaveProofs Traits.Meter Traits.MeterProofs
   Traits.Publication Traits.PublicationProofs Traits.Options Traits.OptionsProofs Traits.Store Traits.StoreProofs
   Traits.VendingStore Traits.VendingStoreProofs Traits.FanMask Traits.FanMaskProofs.
+From SC Require Import Msg.Msg Msg.Schema Msg.Path Masks.Get Traits.MeterMask Traits.MeterMaskProofs Traits.StockMask Traits.StockMaskProofs Traits.PubStore Traits.PubStoreProofs Traits.TraitPull Traits.TraitPullProofs Traits.ModeMaskProofs.
 From Coq Require Import QArith.
 Local Open Scope string_scope.
 Local Open Scope Z_scope.
@@ -441,3 +442,245 @@ Example C20_nonvacuous_fan_masked :
     [(mkFan 40 "high" 9 2, Some (mkFM true false false false false)); (mkFan 1 "" 1 2, Some (mkFM false false true true false))]
   = mkFan 15 "low" 1 2.
 Proof. reflexivity. Qed.
+
+(* ================= meter: UpdateMeterReading with arbitrary update masks (field-mask paths) ================= *)
+(* masks are lists of paths (Msg/Path.v), validated against the MeterReading schema (fm_valid) and interpreted
+   by prefix tests; covers ups p = some mask path is a prefix of p; touches ups f = some mask path is a prefix
+   of f or lies inside f *)
+
+(* FRAME: a field no mask path is related to keeps its value, for every mask (valid or not) and every request *)
+Theorem C20_meter_masked_update_frame : forall ups old req,
+  (touches ups "start_time" = false -> mm_start (snd (mm_update (Some ups) old req)) = mm_start old) /\
+  (touches ups "end_time" = false -> mm_end (snd (mm_update (Some ups) old req)) = mm_end old) /\
+  (touches ups "usage" = false -> mm_usage (snd (mm_update (Some ups) old req)) = mm_usage old).
+Proof. exact mm_update_frame. Qed.
+Print Assumptions C20_meter_masked_update_frame.
+
+(* INSIDE: what a valid non-empty mask writes *)
+Theorem C20_meter_masked_update_inside : forall ups old req, ups <> [] -> fm_valid meter_schema MR ups = true ->
+  fst (mm_update (Some ups) old req) = code_ok /\
+  (covers ups ["usage"] = true -> mm_usage (snd (mm_update (Some ups) old req)) = mm_usage req) /\
+  (covers ups ["start_time"] = true -> mm_start (snd (mm_update (Some ups) old req)) =
+     match mm_start req with Some r => Some (merge_ts (mm_start old) r) | None => None end) /\
+  (covers ups ["start_time"] = false -> covers ups ["start_time"; "seconds"] = true ->
+     forall s n, mm_start req = Some (s, n) -> option_map fst (mm_start (snd (mm_update (Some ups) old req))) = Some s).
+Proof. exact mm_update_inside. Qed.
+Print Assumptions C20_meter_masked_update_inside.
+
+Theorem C20_meter_masked_invalid_noop : forall ups old req, fm_valid meter_schema MR ups = false ->
+  mm_update (Some ups) old req = (code_invalid_argument, old).
+Proof. exact mm_update_invalid_noop. Qed.
+Print Assumptions C20_meter_masked_invalid_noop.
+
+(* all sequences of RecordReading / Reset / UpdateMeterReading(arbitrary mask, arbitrary request) in which no
+   update mask is related to start_time / end_time, under a clock that does not run backwards *)
+Theorem C20_meter_masked_sequences : forall ops m e0, mm_wf m = true -> mm_end m = Some (e0, 0) ->
+  forallb time_safe ops = true -> mm_times_from e0 ops = true ->
+  mm_wf (mm_run m ops) = true /\
+  mm_start (mm_run m ops) = mm_last_reset (mm_start m) ops /\
+  mm_end (mm_run m ops) = mm_last_time (mm_end m) ops.
+Proof. exact mm_sequences. Qed.
+Print Assumptions C20_meter_masked_sequences.
+
+(* without the guard on the masks the statement is false of the faithful model: UpdateMeterReading is a raw
+   write and can clear start_time or put end before start *)
+Theorem C20_meter_masked_unguarded_refuted :
+  let m := mkMM 5 (Some (10, 0)) (Some (20, 0)) in
+  mm_wf m = true /\
+  mm_wf (mm_step m (MMUpdate (Some [["start_time"]]) (mkMM 0 None None))) = false /\
+  mm_wf (mm_step m (MMUpdate (Some [["end_time"; "seconds"]]) (mkMM 0 None (Some (3, 0))))) = false.
+Proof. exact mm_update_breaks_wf. Qed.
+Print Assumptions C20_meter_masked_unguarded_refuted.
+
+(* RecordReading / Reset as first written (update paths naming the timestamp messages) *)
+Theorem C20_meter_masked_v0_refuted :
+  let m := mkMM 5 (Some (10, 900)) (Some (20, 100)) in
+  mm_wf m = true /\
+  mm_step_v0 m (MMReset 30) = mkMM 0 (Some (30, 900)) (Some (30, 100)) /\
+  mm_wf (mm_step_v0 m (MMReset 30)) = false /\
+  mm_end (mm_step_v0 m (MMRecord 7 30)) = Some (30, 100) /\
+  mm_wf (mm_step m (MMReset 30)) = true /\ mm_end (mm_step m (MMRecord 7 30)) = Some (30, 0).
+Proof. exact mm_step_v0_stale_nanos. Qed.
+Print Assumptions C20_meter_masked_v0_refuted.
+
+Example C20_nonvacuous_meter_masked :
+  let ops := [MMRecord 7 105; MMUpdate (Some [["usage"]; ["bogus"]]) (mkMM 1 None None);
+              MMUpdate (Some [["usage"]; ["usage"]]) (mkMM 9 (Some (1, 1)) None); MMReset 110; MMRecord 3 110] in
+  forallb time_safe ops = true /\ mm_times_from 100 ops = true /\
+  mm_run (mkMM 0 (Some (100, 0)) (Some (100, 0))) ops = mkMM 3 (Some (110, 0)) (Some (110, 0)) /\
+  mm_run (mkMM 0 (Some (100, 0)) (Some (100, 0))) (firstn 3 ops) = mkMM 9 (Some (100, 0)) (Some (105, 0)).
+Proof. vm_compute. repeat split. Qed.
+
+(* ================= vending: UpdateStock with arbitrary update masks (field-mask paths, nested quantity paths) ================= *)
+(* for every amount type A with a "not populated" test (float32 in the code, Q in Traits/Vending.v, Z in the judge) *)
+
+Theorem C20_stock_path_update_frame : forall (A : Type) (azero : A) (aisz : A -> bool) ups old req,
+  (touches ups "used" = false -> ps_used (stock_update azero aisz (Some ups) old req) = ps_used old) /\
+  (touches ups "remaining" = false -> ps_rem (stock_update azero aisz (Some ups) old req) = ps_rem old) /\
+  (touches ups "last_dispensed" = false -> ps_last (stock_update azero aisz (Some ups) old req) = ps_last old) /\
+  (touches ups "dispensing" = false -> ps_disp (stock_update azero aisz (Some ups) old req) = ps_disp old).
+Proof. exact stock_update_frame. Qed.
+Print Assumptions C20_stock_path_update_frame.
+
+(* nested paths: f.amount alone leaves f.unit as stored and writes the request's amount, and vice versa *)
+Theorem C20_stock_path_update_nested : forall (A : Type) (azero : A) (aisz : A -> bool) ups f old req u a,
+  covers ups [f] = false -> old = Some (u, a) ->
+  (covers ups [f; "unit"] = false -> option_map fst (upd_pq azero aisz ups f old req) = Some u) /\
+  (covers ups [f; "amount"] = false -> option_map snd (upd_pq azero aisz ups f old req) = Some a) /\
+  (covers ups [f; "amount"] = true -> forall u' a', req = Some (u', a') -> option_map snd (upd_pq azero aisz ups f old req) = Some a') /\
+  (covers ups [f; "unit"] = true -> forall u' a', req = Some (u', a') -> option_map fst (upd_pq azero aisz ups f old req) = Some u').
+Proof. exact stock_update_nested. Qed.
+Print Assumptions C20_stock_path_update_nested.
+
+Theorem C20_stock_path_update_inside : forall (A : Type) (azero : A) (aisz : A -> bool) ups f old req, covers ups [f] = true ->
+  upd_pq azero aisz ups f old req = match req with Some r => Some (merge_pq azero aisz old r) | None => None end.
+Proof. exact stock_update_inside. Qed.
+Print Assumptions C20_stock_path_update_inside.
+
+(* the generic store theorem instantiated with the path merge: all Create / Update(arbitrary path mask) / Delete sequences *)
+Theorem C20_stock_path_store_sequences : forall (A : Type) (azero : A) (aisz : A -> bool) ops (s : store (pstock A)),
+  store_wf s = true ->
+  store_wf (srun (stock_update azero aisz) (@stock_mask_bad) s ops) = true /\
+  forall k, sfind k (srun (stock_update azero aisz) (@stock_mask_bad) s ops)
+            = frun (stock_update azero aisz) (@stock_mask_bad) (fun k => sfind k s) ops k.
+Proof. exact stock_path_store_sequences. Qed.
+Print Assumptions C20_stock_path_store_sequences.
+
+Theorem C20_stock_path_store_update_frame : forall (A : Type) (azero : A) (aisz : A -> bool) (s : store (pstock A)) name req um,
+  store_wf s = true ->
+  let s' := snd (sstep (stock_update azero aisz) (@stock_mask_bad) s (SUpdate name req um)) in
+  (forall k, k <> name -> sfind k s' = sfind k s) /\ (forall k, sfind k s' = None <-> sfind k s = None).
+Proof. exact stock_path_update_frame. Qed.
+Print Assumptions C20_stock_path_store_update_frame.
+
+Example C20_nonvacuous_stock_path :
+  zupdate (Some [["used"; "amount"]; ["remaining"; "unit"]]) (mkPS (Some (3, 20)) (Some (3, 100)) None false)
+          (mkPS (Some (9, 25)) (Some (4, 1)) (Some (1, 1)) true)
+  = mkPS (Some (3, 25)) (Some (4, 100)) None false
+  /\ zupdate_tree "water" (Some [["used"; "amount"]; ["remaining"; "unit"]]) (mkPS (Some (3, 20)) (Some (3, 100)) None false)
+          (mkPS (Some (9, 25)) (Some (4, 1)) (Some (1, 1)) true)
+  = Some (0, mkPS (Some (3, 25)) (Some (4, 100)) None false).
+Proof. exact stock_nested_sample. Qed.
+
+(* ================= publication: the collection over ALL ids (store level), generated ids ================= *)
+
+(* every operation moves the slot of the id it addresses by the one-id step and touches no other id *)
+Theorem C20_publication_store_slots : forall hash s o, store_wf s = true ->
+  fst (pubs_step hash s o) = fst (pub_step hash (po_now o) (sfind (addressed o) s) (pub_norm_op (po_op o) (po_gen o))) /\
+  forall k, sfind k (snd (pubs_step hash s o)) =
+            if String.eqb (addressed o) k
+            then snd (pub_step hash (po_now o) (sfind (addressed o) s) (pub_norm_op (po_op o) (po_gen o)))
+            else sfind k s.
+Proof. exact pubs_step_slots. Qed.
+Print Assumptions C20_publication_store_slots.
+
+(* all multi-id sequences (creates with and without id, every update mask, deletes, acknowledgements), for every
+   hash function and every candidate list of the random source: the listing stays key-sorted and duplicate free
+   and every listed publication carries the hash of its content *)
+Theorem C20_publication_store_sequences : forall hash ops s, store_wf s = true -> pubs_versions_ok hash s ->
+  store_wf (pubs_run_c hash s ops) = true /\ pubs_versions_ok hash (pubs_run_c hash s ops).
+Proof. exact pubs_c_sequences. Qed.
+Print Assumptions C20_publication_store_sequences.
+
+(* the slot of id k after a multi-id history is the one-id history (C20_publication_history applies to it) of the
+   operations addressed to k *)
+Theorem C20_publication_store_per_id : forall hash ops s k, store_wf s = true ->
+  sfind k (pubs_run hash s ops) = pub_run hash (sfind k s) (ops_of k ops).
+Proof. exact pubs_per_id. Qed.
+Print Assumptions C20_publication_store_per_id.
+
+Theorem C20_publication_store_stale_ack : forall hash s id version receipt reason allow gen now old,
+  store_wf s = true -> pubs_versions_ok hash s ->
+  sfind id s = Some old -> id <> "" -> version <> "" -> version <> hash (content_of old) ->
+  fst (pubs_step hash s (mkPO (PAck id version receipt reason allow) gen now)) = PErr 10 /\
+  forall k, sfind k (snd (pubs_step hash s (mkPO (PAck id version receipt reason allow) gen now))) = sfind k s.
+Proof. exact pubs_stale_ack. Qed.
+Print Assumptions C20_publication_store_stale_ack.
+
+(* generated ids (the freshness clause of the C01 collection model): the first of at most ten candidates that is
+   non-empty and unused *)
+Theorem C20_generated_id_fresh : forall cands n (s : pubs) g, first_fresh cands n s = Some g ->
+  g <> "" /\ sfind g s = None /\
+  exists i, (i < n)%nat /\ nth_error cands i = Some g /\
+            forall j c, (j < i)%nat -> nth_error cands j = Some c -> c = "" \/ sfind c s <> None.
+Proof. exact first_fresh_spec. Qed.
+Print Assumptions C20_generated_id_fresh.
+
+Theorem C20_publication_create_generated : forall hash s p cands now, store_wf s = true -> p_id p = "" ->
+  match first_fresh cands 10 s with
+  | None => pubs_step_c hash s (PCreate p) cands now = (PErr 10, s)
+  | Some g =>
+      let n := computed hash now (pub_with_id p g) in
+      g <> "" /\ sfind g s = None /\ In g cands /\
+      fst (pubs_step_c hash s (PCreate p) cands now) = POk n /\ p_id n = g /\ p_version n = hash (content_of n) /\
+      forall k, sfind k (snd (pubs_step_c hash s (PCreate p) cands now)) = if String.eqb g k then Some n else sfind k s
+  end.
+Proof. exact pubs_create_generated. Qed.
+Print Assumptions C20_publication_create_generated.
+
+Theorem C20_publication_store_new : forall cfg, store_wf (pubs_new cfg) = true.
+Proof. exact pubs_new_wf. Qed.
+Print Assumptions C20_publication_store_new.
+
+Example C20_nonvacuous_publication_store :
+  let h := fun c : content => let '(a, b, c0, d) := c in "h" ++ a ++ b ++ c0 ++ d in
+  map fst (pubs_run_c h [] [(PCreate (mkPub "b" "" "x" "" None None), [], 1); (PCreate (mkPub "" "" "y" "" None None), [""; "b"; "a-gen"], 2);
+                            (PUpdate (mkPub "b" "" "z" "" None None) (Some pm_only_body) "", [], 3);
+                            (PDelete "b" "" false, [], 4); (PCreate (mkPub "0" "" "" "" None None), [], 5)]) = ["0"; "a-gen"].
+Proof. vm_compute. reflexivity. Qed.
+
+(* ================= Pull / stream methods of the one-value models (enter/leave, meter, fan speed) ================= *)
+(* the stream is Resource/Pull.v's pull_value over the events the model's operations publish; for every model step
+   function, seed view, initial value and history *)
+
+(* EXACT: the seed (unless updates_only) followed by the getter value after every accepted operation, nothing else *)
+Theorem C20_pull_stream_exact : forall (S Op : Type) (step : S -> Op -> option S) (seed_view : S -> S) uo s0 t0 ops,
+  tp_stream step seed_view None uo s0 t0 ops = ((if uo then [] else [(seed_view s0, t0)]) ++ tp_trace step s0 ops)%list.
+Proof. exact stream_exact. Qed.
+Print Assumptions C20_pull_stream_exact.
+
+(* FOLD: the last value the subscriber holds is the model's getter after the history *)
+Theorem C20_pull_fold_is_getter : forall (S Op : Type) (step : S -> Op -> option S) (seed_view : S -> S) s0 t0 ops,
+  tp_last_value (tp_stream step seed_view None true s0 t0 ops) s0 = tp_run step s0 ops /\
+  (tp_trace step s0 ops <> [] -> tp_last_value (tp_stream step seed_view None false s0 t0 ops) s0 = tp_run step s0 ops) /\
+  (tp_trace step s0 ops = [] -> tp_stream step seed_view None false s0 t0 ops = [(seed_view s0, t0)]).
+Proof.
+  intros. split; [apply stream_fold_updates_only|]. split; [apply stream_fold_seeded|apply stream_seed_only].
+Qed.
+Print Assumptions C20_pull_fold_is_getter.
+
+(* ... after each operation: the stream of a longer history extends the stream of the shorter one by the getter
+   values of the additional accepted operations *)
+Theorem C20_pull_stream_prefix : forall (S Op : Type) (step : S -> Op -> option S) (seed_view : S -> S) uo s0 t0 a b,
+  tp_stream step seed_view None uo s0 t0 (a ++ b)%list = (tp_stream step seed_view None uo s0 t0 a ++ tp_trace step (tp_run step s0 a) b)%list.
+Proof. exact stream_prefix. Qed.
+Print Assumptions C20_pull_stream_prefix.
+
+(* with a message equivalence that is equality on the model's values (fan speed): repeated values are not
+   delivered and the last value held is still the getter *)
+Theorem C20_pull_fold_with_equality_equivalence : forall (S Op : Type) (step : S -> Op -> option S) (eqb : S -> S -> bool),
+  (forall a b, eqb a b = true <-> a = b) -> forall uo s0 t0 ops,
+  tp_last_value (tp_stream step (fun s => s) (Some (eq_equiv S eqb)) uo s0 t0 ops) s0 = tp_run step s0 ops.
+Proof. exact stream_fold_equality. Qed.
+Print Assumptions C20_pull_fold_with_equality_equivalence.
+
+(* enter/leave instance: the model getter of the stream theorem is el_run (C20_enterleave_sequences / _counts apply) *)
+Theorem C20_pull_enterleave_getter : forall ops s, tp_run el_pull_step s ops = el_run s (map fst ops).
+Proof. exact el_run_is_tp_run. Qed.
+Print Assumptions C20_pull_enterleave_getter.
+
+Example C20_nonvacuous_pull :
+  tp_stream mm_pull_step (fun m => m) None false (mkMM 0 (Some (5, 0)) (Some (5, 0))) 5
+    [(MMRecord 7 9, 9); (MMUpdate (Some [["bogus"]]) (mkMM 1 None None), 10); (MMReset 12, 12)]
+  = [(mkMM 0 (Some (5, 0)) (Some (5, 0)), 5); (mkMM 7 (Some (5, 0)) (Some (9, 0)), 9); (mkMM 0 (Some (12, 0)) (Some (12, 0)), 12)].
+Proof. vm_compute. reflexivity. Qed.
+
+(* ================= mode: the update masks of UpdateModeValues (absent / ["values"] / without paths) ================= *)
+Theorem C20_mode_update_masks : forall ms pre abs rel,
+  let value := fold_left (rel_adjust ms pre) rel abs in
+  (forall m, value <> [] -> afind m value = None -> afind m (mode_update ms pre abs rel 1) = afind m pre) /\
+  (value = [] -> mode_update ms pre abs rel 1 = []) /\
+  mode_update ms pre abs rel 2 = pre /\
+  mode_update ms pre abs rel 0 = value.
+Proof. exact mode_update_masks. Qed.
+Print Assumptions C20_mode_update_masks.
